@@ -28,7 +28,9 @@ META = {
 def case(draw):
     s = draw(GS.spec2d_case(max_nf=16, max_nd=144, max_cells=12000, relabel=True, history=True, dtypes=True))
     b = draw(GS.band(s["f"]))
-    return {"spec": s, **b}
+    # storage order of the spectral dimensions: (..., frequency, direction) or direction-major (..., direction, frequency),
+    # as allowed by the optional dims argument of the constructors
+    return {"spec": s, **b, "dims_order": draw(st.sampled_from([None, None, None, "direction_major"]))}
 
 
 def _arr(x):
@@ -46,6 +48,9 @@ def run(c):
     shape = tuple(a["shape"])
     E = a["e"]
     spec = GS.build(sc)
+    if c.get("dims_order") == "direction_major":
+        from ocean_science_utilities.wavespectra.spectrum import FrequencyDirectionSpectrum
+        spec = FrequencyDirectionSpectrum(spec.dataset.transpose(..., "direction", "frequency"))
     w = O.dir_steps(d)
     require(abs(w.sum() - 360.0) <= 1e-9 and (w > 0).all(), "generator_sanity", f"steps {w.sum()}")
     got_w = _arr(spec.direction_step).astype(float)
@@ -160,6 +165,8 @@ def run(c):
         classes.append("has_empty_frequency_row")
     if np.isnan(E).any():
         classes.append("has_nan")
+    if c.get("dims_order"):
+        classes.append("stored_" + c["dims_order"])
     return {"nontrivial": (not uniform or d[0] != 0) and nz_dirs >= 2, "classes": classes}
 
 
